@@ -161,6 +161,28 @@ Theorem C17_update_correct_dyn_added : forall pol fuel a l s,
 Proof. exact ps_dyn_added_correct. Qed.
 Print Assumptions C17_update_correct_dyn_added.
 
+(* "all other entries are kept" includes the transport field of each record: a record written by
+   a session of one transport is copied with that transport when a session of another transport
+   adds a resource (the stored request is parsed at restart in the framing its record names) *)
+Theorem C17_update_correct_dyn_added_keeps_transport : forall pol fuel a l s,
+  Forall ps_dyn_wf l -> ps_dyn_wf a -> (length l < fuel)%nat ->
+  ps_holds ps_dyn_file (ps_view s PS_DYN) l ->
+  exists s' l', ps_run pol (ps_dyn_added fuel a) s = (1, s') /\
+    ps_view s' PS_DYN = Some (ps_dyn_file l') /\ In a l' /\
+    (forall proto name pkt, In (mkDyn proto name pkt) l -> name <> psd_name a ->
+                            In (mkDyn proto name pkt) l').
+Proof.
+  intros pol fuel a l s Hl Ha Hf Hv.
+  destruct (ps_dyn_added_correct pol fuel a l s Hl Ha Hf Hv) as (s' & Hr & Hview & _).
+  exists s', (ps_dyn_without (psd_name a) l ++ [a]). split; [exact Hr|]. split; [exact Hview|].
+  split; [apply in_or_app; right; left; reflexivity|].
+  intros proto name pkt Hin Hne. apply in_or_app. left. unfold ps_dyn_without.
+  apply filter_In. split; [exact Hin|]. cbn [psd_name].
+  destruct (ps_beq (psd_name a) name) eqn:E; [|reflexivity].
+  apply ps_beq_eq in E. symmetry in E. contradiction.
+Qed.
+Print Assumptions C17_update_correct_dyn_added_keeps_transport.
+
 Theorem C17_update_correct_dyn_deleted : forall pol fuel name l s,
   Forall ps_dyn_wf l -> (length l < fuel)%nat ->
   ps_view s PS_DYN = Some (ps_dyn_file l) ->
